@@ -102,6 +102,8 @@ Hypothesis Hlen : forall i s, (Z.of_nat (length (translate i s)) + cf_page_size 
 Hypothesis Hdel : cf_del_checked cfg = true.
 (** source fact: CommitHistory::Push(composition, input) resets [last] in its raw branch *)
 Hypothesis Hhg : cf_hist_guard cfg = true.
+(** source fact: the key binder replays its target keys with redirecting_ = true *)
+Hypothesis Hkg : cf_kb_guard cfg = true.
 (** the chains of this section: segmentors [abc_segmentor, fallback_segmentor], no punctuator
     (TotalPunct.v states what holds and what fails for chains with punct_segmentor) *)
 Hypothesis Hseg : cf_segmentors cfg = [SgAbc; SgFallback].
@@ -122,7 +124,7 @@ Notation cinvT := (cinv cfg MPf IPt True).
 Notation cpreT := (cpre cfg MPf IPt True).
 Notation sinvT := (sinv cfg MPf IPt True).
 
-Ltac side := first [exact Hps | exact Hlen | exact Hdel | exact Hhg | exact HMPf | exact HGEf | exact I | (intros; exact I)].
+Ltac side := first [exact Hps | exact Hlen | exact Hdel | exact Hhg | exact Hkg | exact HMPf | exact HGEf | exact I | (intros; exact I)].
 Ltac wf L :=
   first [eapply L with (MP := MPf) (IP := IPt) (GE := True) | eapply L with (MP := MPf) (IP := IPt) | eapply L];
   try side; eauto.
@@ -1501,20 +1503,71 @@ Proof.
   destruct ret; cbn [fst]; try exact H1. apply IH; [|exact H1]. intros q Hq. apply Hp. right; exact Hq.
 Qed.
 
-Lemma process_key_good s k : sgood s -> sgood (fst (process_key cfg translate s k)).
+(** ---- KeyBinder ---- *)
+Lemma reinterpret_paging_key_good s k : sgood s -> sgood (fst (reinterpret_paging_key cfg translate s k)).
 Proof.
-  intros H. unfold process_key.
-  assert (H1 : sgood (fst (run_processors (processors cfg translate) s k))).
+  intros H. unfold reinterpret_paging_key. destruct (k_release k); [exact H|]. cbv zeta.
+  match goal with |- sgood (fst (if ?b then _ else _)) => destruct b end; [exact H|].
+  match goal with |- sgood (fst (if ?b then _ else _)) => destruct b end; [|exact H].
+  destruct (cx_input (st_ctx s)) as [|b0 r0] eqn:Ei; [exact H|].
+  match goal with |- sgood (fst (if ?b then _ else _)) => destruct b end; [exact H|].
+  cbn [fst]. unfold sgood. cbn [st_ctx on_ctx st_with_ctx]. apply push_input_good, H.
+Qed.
+
+Lemma kb_perform_action_good s a : sgood s -> sgood (kb_perform_action cfg translate s a).
+Proof.
+  intros H. destruct a; cbn [kb_perform_action]; try exact H; apply on_ctx_good; try exact H; intros c Hc; apply set_option_good, Hc.
+Qed.
+
+Lemma key_binder_process_good R red s k :
+  (forall f, R = Some f -> forall x tk, sgood x -> sgood (fst (f x tk))) ->
+  (R = None -> red = true) ->
+  sgood s -> sgood (fst (key_binder_process cfg translate R red s k)).
+Proof.
+  intros HR HN H. unfold key_binder_process.
+  destruct (red || match cf_bindings cfg with [] => true | _ => false end) eqn:Er; [exact H|].
+  apply orb_false_iff in Er as (Er & _).
+  pose proof (reinterpret_paging_key_good s k H) as H1.
+  destruct (reinterpret_paging_key cfg translate s k) as [s1 re]. cbn [fst] in H1. destruct re; [exact H1|].
+  destruct (find _ (kb_vector cfg k)) as [b|]; [|exact H1].
+  destruct (kb_act b) as [keys | o | o | o | sc] eqn:Ea; cbn [fst];
+    try (rewrite <- Ea; apply kb_perform_action_good, H1).
+  destruct keys as [|tk keys]; [exact H1|]. destruct R as [f|]; cbn [fst].
+  - assert (Hf : forall l x, sgood x -> sgood (fold_left (fun y t => fst (f y t)) l x)).
+    { induction l as [|t l IHl]; intros x Hx; [exact Hx|]. cbn [fold_left]. apply IHl, (HR f eq_refl), Hx. }
+    apply Hf, H1.
+  - rewrite (HN eq_refl) in Er. discriminate Er.
+Qed.
+
+Lemma process_key_gen_good kb s k :
+  (forall x, sgood x -> sgood (fst (kb x k))) -> sgood s -> sgood (fst (process_key_gen cfg translate kb s k)).
+Proof.
+  intros Hkb H. unfold process_key_gen.
+  assert (H1 : sgood (fst (run_processors (processors cfg translate kb) s k))).
   { apply run_processors_good; [|exact H]. intros p Hp s0 H0. unfold processors in Hp. apply in_map_iff in Hp as (i & <- & Hi).
     destruct i; cbn [proc_of];
       [apply speller_process_good | exfalso; exact (Hnp Hi) | apply selector_process_good
-       | apply navigator_process_good | apply editor_process_good]; exact H0. }
-  destruct (run_processors (processors cfg translate) s k) as [s1 ret]. cbn [fst] in H1.
+       | apply navigator_process_good | apply editor_process_good | apply Hkb]; exact H0. }
+  destruct (run_processors (processors cfg translate kb) s k) as [s1 ret]. cbn [fst] in H1.
   pose proof (shape_process_good (on_ctx s1 (fun c => ctx_with_hist c (hist_push_key (cx_hist c) k))) k H1) as Hs.
   destruct ret; cbn [fst]; try exact H1; cbv zeta;
     destruct (shape_process (on_ctx s1 (fun c => ctx_with_hist c (hist_push_key (cx_hist c) k))) k) as [sx rx];
     destruct rx; exact Hs.
 Qed.
+
+Lemma process_key_n_good fuel : forall red s k,
+  (red = true \/ fuel <> 0) -> sgood s -> sgood (fst (process_key_n cfg translate fuel red s k)).
+Proof.
+  induction fuel as [|f IH]; intros red s k Hg H; cbn [process_key_n]; apply process_key_gen_good; try exact H; intros x Hx;
+    apply key_binder_process_good; try exact Hx.
+  - intros f0 X; discriminate X.
+  - intros _. destruct Hg as [X | X]; [exact X | congruence].
+  - intros f0 X. injection X as <-. intros y tk Hy. apply IH; [|exact Hy]. left. exact Hkg.
+  - intros X; discriminate X.
+Qed.
+
+Lemma process_key_good s k : sgood s -> sgood (fst (process_key cfg translate s k)).
+Proof. intros H. unfold process_key. apply process_key_n_good; [|exact H]. right. discriminate. Qed.
 
 (** ---- the API layer ---- *)
 Lemma on_current_page_good s i verb :
@@ -1606,7 +1659,8 @@ Definition is_obs (o : obs) : bool := match o with ObsCrash _ => false | Obs _ _
     was added is of this form): segmentors [abc_segmentor, fallback_segmentor], any order of
     speller / selector / navigator / editor, and the source fact about CommitHistory::Push *)
 Definition plain_chain (cfg : config) : Prop :=
-  cf_hist_guard cfg = true /\ cf_segmentors cfg = [SgAbc; SgFallback] /\ ~ In PPunctuator (cf_processors cfg).
+  cf_hist_guard cfg = true /\ cf_kb_guard cfg = true /\ cf_segmentors cfg = [SgAbc; SgFallback] /\
+  ~ In PPunctuator (cf_processors cfg).
 
 Theorem core_total (cfg : config) (translate : bytes -> seginfo -> list cand) :
   (1 <= cf_page_size cfg)%Z ->
@@ -1616,7 +1670,7 @@ Theorem core_total (cfg : config) (translate : bytes -> seginfo -> list cand) :
   cands_fit translate ->
   forall ops, forallb is_obs (snd (run cfg translate ops)) = true.
 Proof.
-  intros Hps Hlen Hdel (Hhg & Hseg & Hnp) Hfit ops. apply forallb_forall. intros o Ho.
-  pose proof (total_gen cfg translate Hps Hlen Hdel Hhg Hseg Hnp Hfit ops) as H. rewrite Forall_forall in H.
+  intros Hps Hlen Hdel (Hhg & Hkg & Hseg & Hnp) Hfit ops. apply forallb_forall. intros o Ho.
+  pose proof (total_gen cfg translate Hps Hlen Hdel Hhg Hkg Hseg Hnp Hfit ops) as H. rewrite Forall_forall in H.
   destruct (H o Ho) as (r & v & ->). reflexivity.
 Qed.
